@@ -68,7 +68,7 @@ def gen_grid(rng, big):
     nmax = 14 if big else 9
     sizes = [1, 2, 3, 4, 5, 7, nmax]
     def size():
-        return int(rng.choice(sizes)) if rng.random() < 0.5 else int(rng.integers(1, nmax + 1))
+        return int(rng.choice(sizes)) if rng.random() < 0.3 else int(rng.integers(4, nmax + 1))
     nx, ny = size(), size()
     if r < 0.45:
         ext = dyadic(rng, 2, 5, 4)
